@@ -316,6 +316,16 @@ def bounds_block(_b):
         user = {p_: (1e-3 * (i + 1), 7.0 + i) for i, p_ in enumerate(cls.param_names)}
         b = pgm.get_isotherm_model(name, param_bounds=dict(user))
         obs.append(static_ob(f"{base}/bounds.user_bounds_in_force/{name}", all(tuple(b.param_bounds[p_]) == user[p_] for p_ in cls.param_names), str(b.param_bounds), backend='eval', replay=x))
+        # limits that are exactly zero, integers, or given as lists are limits like any other
+        for tag, mk_ in (('zero_lower', lambda i: (0, 7.0 + i)), ('zero_upper', lambda i: (-3.0 - i, 0.0)), ('integers', lambda i: (1, 9 + i)), ('lists', lambda i: [0.0, 2.5 + i])):
+            ub = {p_: mk_(i) for i, p_ in enumerate(cls.param_names)}
+            try:
+                bz = pgm.get_isotherm_model(name, param_bounds=dict(ub))
+                ok = all(len(bz.param_bounds[p_]) == 2 and bz.param_bounds[p_][0] == ub[p_][0] and bz.param_bounds[p_][1] == ub[p_][1] for p_ in cls.param_names)
+                det = str(bz.param_bounds)
+            except Exception as exc:
+                ok, det = False, f"{type(exc).__name__}: {exc}"[:120]
+            obs.append(static_ob(f"{base}/bounds.user_bounds_in_force/{name}|{tag}", ok, det, backend='eval', replay=dict(x, form=tag)))
         c = pgm.get_isotherm_model(name)
         obs.append(static_ob(f"{base}/bounds.defaults_in_force_after_a_user_bounded_instance/{name}", dict(c.param_bounds) == defaults0, str(c.param_bounds), backend='eval', replay=x))
         first = cls.param_names[0]
